@@ -163,6 +163,9 @@ def execute(program, ch: Chooser) -> Result:  # noqa: C901, PLR0912, PLR0915
                 p: Pair[T, U]
                 z: int = 5
 
+            class Mixed[T](State):  # one parameter forwarded, one bound
+                p: Pair[T, int]
+
             good = Pair[int, str](first=1, second="a")
             swapped = Pair[str, int](first="a", second=1)
             steps += 2
@@ -173,6 +176,18 @@ def execute(program, ch: Chooser) -> Result:  # noqa: C901, PLR0912, PLR0915
                 stats["accepted"] += 1
             except Exception as exc:  # noqa: BLE001
                 viols.append(viol("accepts-conforming", "arg/pair-typevars", "succeeds", f"{type(exc).__name__}: {exc}"[:160]))
+            try:
+                mixed_ok = Pair[str, int](first="a", second=1)
+                m = Mixed[str](p=mixed_ok)
+                if m.p is not mixed_ok:
+                    viols.append(viol("faithful", "arg/pair-mixed", "same instance", "other"))
+            except Exception as exc:  # noqa: BLE001
+                viols.append(viol("accepts-conforming", "arg/pair-mixed", "Mixed[str](p=Pair[str,int](..)) succeeds", f"{type(exc).__name__}: {exc}"[:160]))
+            try:
+                Mixed[str](p=Pair[int, int](first=1, second=1))
+                viols.append(viol("rejects-nonconforming", "arg/pair-mixed", "raises", "accepted Pair[int,int] for Pair[str,int]"))
+            except Exception:  # noqa: BLE001
+                stats["rejected"] += 1
             try:
                 UsesPair[int, str](p=swapped)
                 viols.append(viol("rejects-nonconforming", "arg/pair-typevars", "raises", "accepted Pair[str,int] for Pair[int,str]"))
@@ -191,13 +206,14 @@ def execute(program, ch: Chooser) -> Result:  # noqa: C901, PLR0912, PLR0915
                 a: cabc.Sequence[T]
                 b: cabc.Mapping[str, T] | None = None
                 c: tuple[T, ...] = ()
+                d: ak.QSeq[T] = ()  # parametrised alias applied to the class' own type variable
 
             H = Host[ak.annotation(leaf)]
         except Exception as exc:  # noqa: BLE001
             viols.append(viol("declaration", f"host/{leaf[0]}", "declares", f"{type(exc).__name__}: {exc}"[:160]))
             return Result("host/decl-fails", True, viols, program, steps=1)
         base = ak.values(["seq", leaf])[0]
-        for attr, t in (("a", ["seq", leaf]), ("b", ["optional", ["map_str", leaf]]), ("c", ["tuplev", leaf])):
+        for attr, t in (("a", ["seq", leaf]), ("b", ["optional", ["map_str", leaf]]), ("c", ["tuplev", leaf]), ("d", ["seq", leaf])):
             _, cases = _cases(t)
             for v in cases:
                 if v is ak.MISSING and attr != "a":
